@@ -479,6 +479,12 @@ func (w *World) loadInto(s Step, target int64) *Violation {
 
 func (w *World) applyPrune(s Step) *Violation {
 	n := s.N
+	if w.M.Cur < w.M.Latest && n >= w.M.Cur && n < w.M.Latest {
+		// the request would delete the version this handle's working tree is
+		// based on: outside the statement (and never generated; reachable only
+		// in minimised plans), skipped
+		return nil
+	}
 	var before uint64
 	if w.Sim != nil {
 		before = w.Sim.Digest()
